@@ -133,12 +133,17 @@ Theorem focus_dims : forall D (b b' : rframes) dims,
 Proof. exact C15_Focus.focus_dims. Qed.
 Print Assumptions focus_dims.
 
-(* focus succeeds whenever there is something to measure *)
+(* focus succeeds whenever there is something to measure (width and height exist, some point is observed) and
+   fails loudly when no point is observed *)
 Theorem focus_defined : forall D (b : rframes),
-  (2 <= D)%nat -> (forall d, (d < D)%nat -> obs_axis R_ops d (all_points R_ops b) <> []) ->
-  exists r, focus R_ops R_ceil D b = Ok r.
+  (2 <= D)%nat -> wf_body D b -> all_missing (all_points R_ops b) = false -> exists r, focus R_ops R_ceil D b = Ok r.
 Proof. exact C15_Focus.focus_defined. Qed.
 Print Assumptions focus_defined.
+
+Theorem focus_nothing_observed : forall D (b : rframes),
+  wf_body D b -> all_missing (all_points R_ops b) = true -> exists e, focus R_ops R_ceil D b = Err e.
+Proof. exact C15_Focus.focus_nothing_observed. Qed.
+Print Assumptions focus_nothing_observed.
 
 Example focus_hypotheses_satisfiable : wf_body 3 ex_body /\ exists r, focus R_ops R_ceil 3 ex_body = Ok r.
 Proof. exact ex_focus. Qed.
